@@ -174,6 +174,11 @@ BadReplyKindAllowed(obs) ==
 BadNeverSilent(obs) ==
     {i \in 1..Len(obs.batch) : Demanding(obs, i) /\ RepliesTo(AllOut(obs), obs.batch[i]) = <<>>}
 
+\* a segmented request the device received completely and in order (role "last" marks its final segment; the trace
+\* module checks the claim on the octets) is a request like any other: it is answered
+BadSegmentedNeverSilent(obs) ==
+    {i \in 1..Len(obs.batch) : obs.batch[i].role = "last" /\ ~Deaf(obs, i) /\ RepliesTo(AllOut(obs), obs.batch[i]) = <<>>}
+
 Clean(res) == res.srv = {} /\ res.ntx = 0 /\ res.cli = 0 /\ res.timers = 0 /\ res.deferred = 0
 \* immediately for requests the device answered ...
 BadLeftoverImmediate(obs) ==
@@ -214,6 +219,7 @@ Failing(obs) ==
          Tag("OneReplySameId", BadOneReplySameId(obs))
     \cup Tag("ReplyKindAllowed", BadReplyKindAllowed(obs))
     \cup Tag("NeverSilentOnIntactHeader", BadNeverSilent(obs))
+    \cup Tag("NeverSilentOnIntactHeader", BadSegmentedNeverSilent(obs))
     \cup Tag("NoLeftover", BadLeftoverImmediate(obs))
     \cup Tag("NoLeftover", LeftBehindBy(obs))
     \cup Tag("OthersStillProcessed", BadOthersStillProcessed(obs))
